@@ -138,13 +138,29 @@ collection of `n` packs: each non-empty combination replaces its packs by one -/
 def packsAfter (n : Nat) (ops : List Op) : Nat :=
   n - (ops.map (·.2.length)).sum + (ops.filter (fun o => o.2.length != 0)).length
 
-/-- the pack collection after `_execute_pack_operations`: the packs of every
-non-empty combination are removed and replaced by one new pack holding their
-revisions (new pack identity `0`) -/
-def executeOps (packs : List Pack) : List Op → List Pack
+/-- the pack collection after `_execute_pack_operations` when `dups` of the
+revision-index entries of a combination are duplicates (the same revision is
+present in several of the combined packs: the packer copies every key once, so
+the new pack holds `revision_count - dups` entries): the packs of every
+non-empty combination are removed and replaced by one new pack (new pack
+identity `0`) -/
+def executeOpsDup (dups : Nat) (packs : List Pack) : List Op → List Pack
   | [] => packs
   | o :: ops =>
-    if o.2.isEmpty then executeOps packs ops
-    else executeOps ((o.1, 0) :: o.2.foldl (fun acc p => acc.erase p) packs) ops
+    if o.2.isEmpty then executeOpsDup dups packs ops
+    else executeOpsDup dups ((o.1 - dups, 0) :: o.2.foldl (fun acc p => acc.erase p) packs) ops
+
+/-- `_execute_pack_operations` without duplicated revisions -/
+def executeOps (packs : List Pack) (ops : List Op) : List Pack := executeOpsDup 0 packs ops
+
+/-- `revision_index.combined_index.key_count()` of a collection holding
+`packs`: `CombinedGraphIndex.key_count` ADDS the key counts of the per-pack
+indices, so a revision present in two packs is counted twice and the total
+the planner gets is exactly the sum of the per-pack counts (checked against
+the real repository, with and without duplicated revisions, on every run). -/
+def keyCount (packs : List Pack) : Nat := cnt packs
+
+/-- value of one decimal digit character of `str(total)` -/
+def charDigit (c : Char) : Nat := c.toNat - 48
 
 end BreezyVerif.C07
